@@ -4,7 +4,7 @@ import json, sys, os
 sys.path.insert(0, os.path.join(os.path.dirname(__file__), '..'))
 from checks import CHECKS, NOT_APPLICABLE
 props = [json.loads(l) for l in open(os.path.join(os.path.dirname(__file__), '..', 'properties.jsonl'))]
-hook_commits = ['403e70b']
+hook_commits = ['403e70b', '2a35032']
 man = {
  'version': 1,
  'setup_cmd': 'mkdir -p .cache evidence && python3-vt -m compileall -q engine checks.py >/dev/null && python3-vt engine/build.py --warm',
